@@ -242,7 +242,7 @@ End Pick.
 Definition ev_keys (ev : event) : list Z :=
   match ev with
   | EInvoke _ ks => ks | EDrop k => [k] | ERaised lb _ => lb | EBack ks => ks
-  | EPop _ => [] | EFed _ _ => []
+  | EPop _ => [] | EFed _ _ => [] | ETake => [] | ECpr _ => []
   end.
 Definition evs_keys (evs : list event) : list Z := flat_map ev_keys evs.
 Definition item_keys (it : item) : list Z := match it with IKey k => [k] | IFlush => [] end.
@@ -342,24 +342,78 @@ Proof.
   destruct it; cbn; [reflexivity|rewrite app_nil_r; reflexivity].
 Qed.
 
-(* every key popped from the queue is in exactly one invocation, dropped,
+Lemma evs_keys_cons x l : evs_keys (x :: l) = ev_keys x ++ evs_keys l.
+Proof. reflexivity. Qed.
+
+(* ---- process_keys: what comes next *)
+Lemma next_item_cases s it q pev : next_item s = Some (it, q, pev) ->
+  (sdone s = false /\ queue s = it :: q /\ pev = EPop it) \/
+  (sdone s = true /\ it = IKey CPR /\ pev = ETake /\ remove_first_cpr (queue s) = Some q).
+Proof.
+  unfold next_item. destruct (sdone s).
+  - destruct (remove_first_cpr (queue s)) eqn:E; [|discriminate]. intros [= <- <- <-]. right. auto.
+  - destruct (queue s); [discriminate|]. intros [= <- <- <-]. left. auto.
+Qed.
+
+(* typed keys: cursor position reports are answers of the terminal, not keys *)
+Definition typed (l : list Z) : list Z := filter (fun k => negb (k =? CPR)) l.
+
+Lemma typed_app a b : typed (a ++ b) = typed a ++ typed b.
+Proof. unfold typed. apply filter_app. Qed.
+
+Lemma typed_cpr_item it : is_cpr it = true -> typed (item_keys it) = [].
+Proof. destruct it as [k|]; cbn; [|reflexivity]. intros ->. reflexivity. Qed.
+
+Lemma remove_first_cpr_typed q : forall q', remove_first_cpr q = Some q' ->
+  typed (items_keys q') = typed (items_keys q) /\ length q = S (length q').
+Proof.
+  induction q as [|it q IH]; intros q'; cbn [remove_first_cpr]; [discriminate|].
+  destruct (is_cpr it) eqn:EC.
+  - intros [= <-]. change (items_keys (it :: q)) with (item_keys it ++ items_keys q).
+    rewrite typed_app, (typed_cpr_item _ EC). split; reflexivity.
+  - destruct (remove_first_cpr q) as [r|]; [|discriminate]. intros [= <-]. destruct (IH r eq_refl) as [H1 H2].
+    change (items_keys (it :: ?x)) with (item_keys it ++ items_keys x). rewrite !typed_app, H1. cbn. split; [reflexivity|lia].
+Qed.
+
+Lemma cpr_step_conserved bs s q : let '(s1, evs, raised) := cpr_step bs s q in buf s = evs_keys evs ++ buf s1.
+Proof.
+  unfold cpr_step. destruct (cpr_binding bs (cenv s)) as [m|]; [|reflexivity].
+  pose proof (run_actions_quiet (bacts (snd m)) (cenv s) q (sdone s)) as Q. destruct (hraised _); cbn [buf].
+  - change (ECpr (fst m) :: ?x ++ ?y) with ((ECpr (fst m) :: x) ++ y). rewrite evs_keys_app.
+    change (evs_keys (ECpr (fst m) :: ?x)) with (evs_keys x). unfold quiet in Q. rewrite Q. cbn. rewrite !app_nil_r. reflexivity.
+  - change (evs_keys (ECpr (fst m) :: ?x)) with (evs_keys x). unfold quiet in Q. rewrite Q. reflexivity.
+Qed.
+
+(* every typed key taken from the queue is in exactly one invocation, dropped,
    discarded by the reset after an exception, handed back to the queue, or
-   still in key_buffer - in order *)
+   still in key_buffer - in order; cursor position reports are not part of it *)
 Lemma process_keys_conserved fuel bs : forall s,
   let '(s', evs, pop, stt) := process_keys fuel bs s in
-  buf s ++ items_keys pop = evs_keys evs ++ buf s'.
+  typed (buf s ++ items_keys pop) = typed (evs_keys evs ++ buf s').
 Proof.
   induction fuel as [|fuel IH]; intros s; cbn [process_keys].
-  - destruct (queue s); [|destruct (sdone s)]; cbn; rewrite app_nil_r; reflexivity.
-  - destruct (queue s) as [|it q]; [cbn; rewrite app_nil_r; reflexivity|].
-    destruct (sdone s); [cbn; rewrite app_nil_r; reflexivity|].
-    pose proof (send_conserved bs (buf s) (cenv s) q false it) as HC.
-    destruct (send bs (buf s) (cenv s) q false it) as [b e q' d evs|e d evs|].
-    + specialize (IH (mkst b q' e d)). destruct (process_keys fuel bs (mkst b q' e d)) as [[[s' evs'] pop] stt].
-      cbn in HC, IH. cbn [items_keys flat_map]. change (evs_keys (EPop it :: ?x)) with (evs_keys x).
-      rewrite evs_keys_app, app_assoc, HC, <- !app_assoc. f_equal. exact IH.
-    + cbn in HC. cbn. rewrite !app_nil_r. exact HC.
-    + cbn. rewrite app_nil_r. reflexivity.
+  - destruct (next_item s) as [[[it q] pev]|]; cbn; rewrite app_nil_r; reflexivity.
+  - destruct (next_item s) as [[[it q] pev]|] eqn:EN; [|cbn; rewrite app_nil_r; reflexivity].
+    assert (PEV : ev_keys pev = []) by (destruct (next_item_cases _ _ _ _ EN) as [[_ [_ ->]]|[_ [_ [-> _]]]]; reflexivity).
+    destruct (is_cpr it) eqn:EC.
+    + pose proof (cpr_step_conserved bs s q) as HC. destruct (cpr_step bs s q) as [[s1 evs] raised]. destruct raised.
+      * change (items_keys [it]) with (item_keys it ++ []). rewrite evs_keys_cons, PEV. cbn [app].
+        rewrite !typed_app, (typed_cpr_item _ EC), HC, typed_app. cbn. rewrite !app_nil_r. reflexivity.
+      * specialize (IH s1). destruct (process_keys fuel bs s1) as [[[s' evs'] pop] stt].
+        change (items_keys (it :: pop)) with (item_keys it ++ items_keys pop).
+        rewrite evs_keys_cons, PEV, evs_keys_app. cbn [app]. rewrite !typed_app in *. rewrite (typed_cpr_item _ EC). cbn [app].
+        rewrite HC, typed_app, <- !app_assoc. f_equal. exact IH.
+    + destruct (next_item_cases _ _ _ _ EN) as [[SD [EQ ->]]|[_ [-> _]]]; [|discriminate].
+      pose proof (send_conserved bs (buf s) (cenv s) q (sdone s) it) as HC.
+      destruct (send bs (buf s) (cenv s) q (sdone s) it) as [b e q' d evs|e d evs|].
+      * specialize (IH (mkst b q' e d (upd_prev (sprev s) evs))).
+        destruct (process_keys fuel bs _) as [[[s' evs'] pop] stt].
+        cbn in HC, IH. change (items_keys (it :: pop)) with (item_keys it ++ items_keys pop).
+        rewrite evs_keys_cons. cbn [ev_keys app].
+        rewrite evs_keys_app, app_assoc, HC, <- !app_assoc. rewrite !typed_app in *. f_equal. exact IH.
+      * cbn in HC. change (items_keys [it]) with (item_keys it ++ []). rewrite evs_keys_cons. cbn [ev_keys app].
+        rewrite !app_nil_r, HC. reflexivity.
+      * cbn. rewrite app_nil_r. reflexivity.
 Qed.
 
 (* ------------------------------------------------------------ the input queue *)
@@ -374,10 +428,12 @@ Inductive replays : list item -> list event -> list item -> Prop :=
 | RP_back ks q evs q' : replays (map IKey ks ++ q) evs q' -> replays q (EBack ks :: evs) q'
 | RP_raised lb q evs q' : replays [] evs q' -> replays q (ERaised lb q :: evs) q'
 | RP_invoke i ks q evs q' : replays q evs q' -> replays q (EInvoke i ks :: evs) q'
-| RP_drop k q evs q' : replays q evs q' -> replays q (EDrop k :: evs) q'.
+| RP_drop k q evs q' : replays q evs q' -> replays q (EDrop k :: evs) q'
+| RP_take q q1 evs q' : remove_first_cpr q = Some q1 -> replays q1 evs q' -> replays q (ETake :: evs) q'
+| RP_cpr i q evs q' : replays q evs q' -> replays q (ECpr i :: evs) q'.
 
 Lemma replays_app q1 e1 q2 e2 q3 : replays q1 e1 q2 -> replays q2 e2 q3 -> replays q1 (e1 ++ e2) q3.
-Proof. induction 1; intros H2; cbn; try constructor; auto. Qed.
+Proof. induction 1; intros H2; cbn; [exact H2|..]; econstructor; eauto. Qed.
 
 Lemma run_actions_replays acts : forall e q d,
   replays q (hevs (run_actions acts e q d)) (hq (run_actions acts e q d)).
@@ -417,24 +473,40 @@ Proof.
       destruct d; [cbn; repeat constructor|apply IH].
 Qed.
 
+Lemma cpr_step_replays bs s q : let '(s1, evs, raised) := cpr_step bs s q in replays q evs (queue s1).
+Proof.
+  unfold cpr_step. destruct (cpr_binding bs (cenv s)) as [m|]; [|constructor].
+  pose proof (run_actions_replays (bacts (snd m)) (cenv s) q (sdone s)) as R. destruct (hraised _); cbn [queue].
+  - constructor. eapply replays_app; [exact R|]. repeat constructor.
+  - constructor. exact R.
+Qed.
+
 (* the whole run, handlers that feed (first or last) included *)
 Lemma process_keys_replays fuel bs : forall s,
   let '(s', evs, pop, stt) := process_keys fuel bs s in replays (queue s) evs (queue s').
 Proof.
   induction fuel as [|fuel IH]; intros s; cbn [process_keys].
-  - destruct (queue s) eqn:EQ; [|destruct (sdone s)]; cbn; rewrite ?EQ; constructor.
-  - destruct (queue s) as [|it q] eqn:EQ; [rewrite EQ; constructor|].
-    destruct (sdone s); [rewrite EQ; constructor|].
-    pose proof (loop_replays (S (length (push (buf s) it))) bs (push (buf s) it) (is_flush it) (cenv s) q false) as HK.
-    unfold send. destruct (loop _ bs _ _ _ q false) as [b e q' d evs|e d evs|].
-    + specialize (IH (mkst b q' e d)). destruct (process_keys fuel bs (mkst b q' e d)) as [[[s' evs'] pop] stt].
-      cbn in HK, IH. constructor. eapply replays_app; eauto.
-    + cbn in HK. constructor. exact HK.
-    + rewrite EQ. constructor.
+  - destruct (next_item s) as [[[it q] pev]|]; constructor.
+  - destruct (next_item s) as [[[it q] pev]|] eqn:EN; [|constructor].
+    assert (PEV : forall evs q', replays q evs q' -> replays (queue s) (pev :: evs) q').
+    { intros evs q' H. destruct (next_item_cases _ _ _ _ EN) as [[_ [-> ->]]|[_ [_ [-> ER]]]].
+      - constructor. exact H.
+      - econstructor; eauto. }
+    destruct (is_cpr it).
+    + pose proof (cpr_step_replays bs s q) as HK. destruct (cpr_step bs s q) as [[s1 evs] raised]. destruct raised.
+      * apply PEV. exact HK.
+      * specialize (IH s1). destruct (process_keys fuel bs s1) as [[[s' evs'] pop] stt].
+        apply PEV. eapply replays_app; eauto.
+    + pose proof (loop_replays (S (length (push (buf s) it))) bs (push (buf s) it) (is_flush it) (cenv s) q (sdone s)) as HK.
+      unfold send. destruct (loop _ bs _ _ _ q (sdone s)) as [b e q' d evs|e d evs|].
+      * specialize (IH (mkst b q' e d (upd_prev (sprev s) evs))). destruct (process_keys fuel bs _) as [[[s' evs'] pop] stt].
+        cbn in HK, IH. apply PEV. eapply replays_app; eauto.
+      * cbn in HK. apply PEV. exact HK.
+      * constructor.
 Qed.
 
 Fixpoint pops (evs : list event) : list item :=
-  match evs with [] => [] | EPop it :: r => it :: pops r | _ :: r => pops r end.
+  match evs with [] => [] | EPop it :: r => it :: pops r | ETake :: r => IKey CPR :: pops r | _ :: r => pops r end.
 
 Lemma pops_app a b : pops (a ++ b) = pops a ++ pops b.
 Proof. induction a as [|x a IH]; [reflexivity|]. destruct x; cbn; rewrite IH; reflexivity. Qed.
@@ -469,19 +541,33 @@ Proof.
     + apply no_pop_lapp; [reflexivity|]. destruct d; [reflexivity|apply IH].
 Qed.
 
+Lemma cpr_step_no_pop bs s q : pops (snd (fst (cpr_step bs s q))) = [].
+Proof.
+  unfold cpr_step. destruct (cpr_binding bs (cenv s)) as [m|]; [|reflexivity].
+  pose proof (run_actions_no_pop (bacts (snd m)) (cenv s) q (sdone s)) as R. destruct (hraised _); cbn [fst snd pops].
+  - rewrite pops_app, R. reflexivity.
+  - exact R.
+Qed.
+
 (* the popped list is the pops of the trace *)
 Lemma process_keys_pops fuel bs : forall s,
   let '(s', evs, pop, stt) := process_keys fuel bs s in pops evs = pop.
 Proof.
   induction fuel as [|fuel IH]; intros s; cbn [process_keys].
-  - destruct (queue s); [|destruct (sdone s)]; reflexivity.
-  - destruct (queue s) as [|it q]; [reflexivity|]. destruct (sdone s); [reflexivity|].
-    pose proof (loop_no_pop (S (length (push (buf s) it))) bs (push (buf s) it) (is_flush it) (cenv s) q false) as HK.
-    unfold send. destruct (loop _ bs _ _ _ q false) as [b e q' d evs|e d evs|].
-    + specialize (IH (mkst b q' e d)). destruct (process_keys fuel bs (mkst b q' e d)) as [[[s' evs'] pop] stt].
-      cbn in HK. cbn [pops]. rewrite pops_app, HK, IH. reflexivity.
-    + cbn in HK. cbn [pops]. rewrite HK. reflexivity.
-    + reflexivity.
+  - destruct (next_item s) as [[[it q] pev]|]; reflexivity.
+  - destruct (next_item s) as [[[it q] pev]|] eqn:EN; [|reflexivity].
+    assert (PEV : forall evs, pops (pev :: evs) = it :: pops evs).
+    { intros evs. destruct (next_item_cases _ _ _ _ EN) as [[_ [_ ->]]|[_ [-> [-> _]]]]; reflexivity. }
+    destruct (is_cpr it).
+    + pose proof (cpr_step_no_pop bs s q) as HK. destruct (cpr_step bs s q) as [[s1 evs] raised]. cbn in HK. destruct raised.
+      * rewrite PEV, HK. reflexivity.
+      * specialize (IH s1). destruct (process_keys fuel bs s1) as [[[s' evs'] pop] stt]. rewrite PEV, pops_app, HK, IH. reflexivity.
+    + pose proof (loop_no_pop (S (length (push (buf s) it))) bs (push (buf s) it) (is_flush it) (cenv s) q (sdone s)) as HK.
+      unfold send. destruct (loop _ bs _ _ _ q (sdone s)) as [b e q' d evs|e d evs|].
+      * specialize (IH (mkst b q' e d (upd_prev (sprev s) evs))). destruct (process_keys fuel bs _) as [[[s' evs'] pop] stt].
+        cbn in HK. rewrite PEV, pops_app, HK, IH. reflexivity.
+      * cbn in HK. rewrite PEV, HK. reflexivity.
+      * reflexivity.
 Qed.
 
 (* ------------------------------------------------------------ undelivered keys stay in input order *)
@@ -566,25 +652,52 @@ Proof.
       destruct d; [|apply IH]. cbn. rewrite items_keys_app, items_keys_map_IKey. reflexivity.
 Qed.
 
+Lemma cpr_binding_in bs e m : cpr_binding bs e = Some m -> In m bs.
+Proof.
+  unfold cpr_binding. intros H. apply find_some in H. destruct H as [H _]. apply in_rev in H.
+  unfold get_for_keys in H. apply in_map_iff in H. destruct H as [[c m'] [E H]]. cbn in E. subst m'.
+  apply sort_desc_in, candidates_in in H. tauto.
+Qed.
+
 Lemma process_keys_in_order fuel bs : no_feed bs -> forall s,
   let '(s', evs, pop, stt) := process_keys fuel bs s in
   match stt with
   | SRaised => True
-  | _ => buf s ++ items_keys (queue s) = evs_gone evs ++ buf s' ++ items_keys (queue s')
+  | _ => typed (buf s ++ items_keys (queue s)) = typed (evs_gone evs ++ buf s' ++ items_keys (queue s'))
   end.
 Proof.
   intros NF. induction fuel as [|fuel IH]; intros s; cbn [process_keys].
-  - destruct (queue s) eqn:EQ; [|destruct (sdone s)]; cbn; rewrite ?EQ; reflexivity.
-  - destruct (queue s) as [|it q] eqn:EQ; [cbn; rewrite ?EQ; reflexivity|].
-    destruct (sdone s); [cbn; rewrite ?EQ; reflexivity|].
-    pose proof (loop_in_order (S (length (push (buf s) it))) bs NF (push (buf s) it) (is_flush it) (cenv s) q false) as HK.
-    unfold send. destruct (loop _ bs _ _ _ q false) as [b e q' d evs|e d evs|].
-    + specialize (IH (mkst b q' e d)). destruct (process_keys fuel bs (mkst b q' e d)) as [[[s' evs'] pop] stt].
-      cbn [in_order buf queue] in HK, IH. destruct stt; try exact I;
-        (change (evs_gone (EPop it :: ?x)) with (evs_gone x); rewrite evs_gone_app, <- app_assoc, <- IH, <- HK;
-         cbn [items_keys flat_map]; destruct it; cbn; rewrite <- ?app_assoc; reflexivity).
-    + exact I.
-    + cbn. rewrite EQ. reflexivity.
+  - destruct (next_item s) as [[[it q] pev]|]; reflexivity.
+  - destruct (next_item s) as [[[it q] pev]|] eqn:EN; [|reflexivity].
+    assert (PEV : forall evs, evs_gone (pev :: evs) = evs_gone evs).
+    { intros evs. destruct (next_item_cases _ _ _ _ EN) as [[_ [_ ->]]|[_ [_ [-> _]]]]; reflexivity. }
+    destruct (is_cpr it) eqn:EC.
+    + assert (TQ : typed (items_keys (queue s)) = typed (items_keys q)).
+      { destruct (next_item_cases _ _ _ _ EN) as [[_ [-> _]]|[_ [_ [_ ER]]]].
+        - change (items_keys (it :: q)) with (item_keys it ++ items_keys q). rewrite typed_app, (typed_cpr_item _ EC). reflexivity.
+        - symmetry. exact (proj1 (remove_first_cpr_typed _ _ ER)). }
+      unfold cpr_step. destruct (cpr_binding bs (cenv s)) as [m|] eqn:EB.
+      * destruct (run_actions_no_feed _ (cenv s) q (sdone s) (NF m (cpr_binding_in _ _ _ EB))) as [HQ HE].
+        rewrite HQ, HE. destruct (hraised _); [exact I|].
+        specialize (IH (mkst (buf s) q (he (run_actions (bacts (snd m)) (cenv s) q (sdone s)))
+                             (hdone (run_actions (bacts (snd m)) (cenv s) q (sdone s))) (sprev s))).
+        destruct (process_keys fuel bs _) as [[[s' evs'] pop] stt]. cbn [buf queue] in IH.
+        destruct stt; try exact I; (rewrite PEV; cbn [app evs_gone flat_map ev_gone]; fold (evs_gone evs');
+          rewrite <- IH, !typed_app, TQ; reflexivity).
+      * specialize (IH (mkst (buf s) q (cenv s) (sdone s) (sprev s))).
+        destruct (process_keys fuel bs _) as [[[s' evs'] pop] stt]. cbn [buf queue] in IH.
+        destruct stt; try exact I; (rewrite PEV; cbn [app]; rewrite <- IH, !typed_app, TQ; reflexivity).
+    + destruct (next_item_cases _ _ _ _ EN) as [[SD [EQ ->]]|[_ [-> _]]]; [|discriminate].
+      pose proof (loop_in_order (S (length (push (buf s) it))) bs NF (push (buf s) it) (is_flush it) (cenv s) q (sdone s)) as HK.
+      unfold send. destruct (loop _ bs _ _ _ q (sdone s)) as [b e q' d evs|e d evs|].
+      * specialize (IH (mkst b q' e d (upd_prev (sprev s) evs))). destruct (process_keys fuel bs _) as [[[s' evs'] pop] stt].
+        cbn [in_order buf queue] in HK, IH.
+        assert (E1 : buf s ++ items_keys (queue s) = evs_gone evs ++ (b ++ items_keys q')).
+        { rewrite <- HK, EQ. destruct it; cbn; rewrite <- ?app_assoc; reflexivity. }
+        destruct stt; try exact I;
+          (rewrite E1, PEV, evs_gone_app, <- app_assoc, typed_app, IH, <- typed_app; reflexivity).
+      * exact I.
+      * reflexivity.
 Qed.
 
 (* ------------------------------------------------------------ exceptions *)
@@ -621,80 +734,149 @@ Qed.
 (* an exception leaves the processor reset *)
 Lemma process_keys_raised fuel bs : forall s s' evs pop,
   process_keys fuel bs s = (s', evs, pop, SRaised) ->
-  s' = mkst [] [] (cenv s') (sdone s') /\
-  exists evs0 lb lq, evs = evs0 ++ [ERaised lb lq] /\ exists i ks, In (EInvoke i ks) evs0.
+  s' = mkst [] [] (cenv s') (sdone s') None /\
+  exists evs0 lb lq, evs = evs0 ++ [ERaised lb lq] /\ exists i, (exists ks, In (EInvoke i ks) evs0) \/ In (ECpr i) evs0.
 Proof.
   induction fuel as [|fuel IH]; intros s s' evs pop; cbn [process_keys].
-  - destruct (queue s); [|destruct (sdone s)]; discriminate.
-  - destruct (queue s) as [|it q]; [discriminate|]. destruct (sdone s); [discriminate|].
-    pose proof (loop_ends_raised (S (length (push (buf s) it))) bs (push (buf s) it) (is_flush it) (cenv s) q false) as HK.
-    unfold send. destruct (loop _ bs _ _ _ q false) as [b e q' d evs1|e d evs1|].
-    + destruct (process_keys fuel bs (mkst b q' e d)) as [[[s1 evs'] pop1] stt] eqn:EP.
-      intros [= <- <- <- ->]. destruct (IH _ _ _ _ EP) as [H1 [evs0 [lb [lq [-> [i [ks HI]]]]]]].
-      split; [exact H1|]. exists (EPop it :: evs1 ++ evs0), lb, lq. split; [cbn; rewrite app_assoc; reflexivity|].
-      exists i, ks. right. apply in_or_app. right. exact HI.
-    + intros [= <- <- <-]. split; [reflexivity|]. cbn in HK. destruct HK as [evs0 [lb [lq [-> [i [ks HI]]]]]].
-      exists (EPop it :: evs0), lb, lq. split; [reflexivity|]. exists i, ks. right. exact HI.
-    + discriminate.
+  - destruct (next_item s) as [[[it q] pev]|]; discriminate.
+  - destruct (next_item s) as [[[it q] pev]|] eqn:EN; [|discriminate].
+    destruct (is_cpr it).
+    + unfold cpr_step. destruct (cpr_binding bs (cenv s)) as [m|].
+      * destruct (hraised _) eqn:RA.
+        -- intros [= <- <- <-]. split; [reflexivity|]. eexists (pev :: ECpr (fst m) :: _), _, _. split; [reflexivity|].
+           exists (fst m). right. right. left. reflexivity.
+        -- destruct (process_keys fuel bs _) as [[[s1 evs'] pop1] stt] eqn:EP. intros [= <- <- <- ->].
+           destruct (IH _ _ _ _ EP) as [H1 [evs0 [lb [lq [-> [i HI]]]]]]. split; [exact H1|].
+           eexists (pev :: (ECpr (fst m) :: _) ++ evs0), lb, lq. split; [cbn; rewrite app_assoc; reflexivity|].
+           exists i. destruct HI as [[ks HI]|HI]; [left; exists ks|right]; right; apply in_or_app; right; exact HI.
+      * destruct (process_keys fuel bs _) as [[[s1 evs'] pop1] stt] eqn:EP. intros [= <- <- <- ->].
+        destruct (IH _ _ _ _ EP) as [H1 [evs0 [lb [lq [-> [i HI]]]]]]. split; [exact H1|].
+        exists (pev :: evs0), lb, lq. split; [reflexivity|].
+        exists i. destruct HI as [[ks HI]|HI]; [left; exists ks|right]; right; exact HI.
+    + pose proof (loop_ends_raised (S (length (push (buf s) it))) bs (push (buf s) it) (is_flush it) (cenv s) q (sdone s)) as HK.
+      unfold send. destruct (loop _ bs _ _ _ q (sdone s)) as [b e q' d evs1|e d evs1|].
+      * destruct (process_keys fuel bs _) as [[[s1 evs'] pop1] stt] eqn:EP.
+        intros [= <- <- <- ->]. destruct (IH _ _ _ _ EP) as [H1 [evs0 [lb [lq [-> [i HI]]]]]].
+        split; [exact H1|]. exists (pev :: evs1 ++ evs0), lb, lq. split; [cbn; rewrite app_assoc; reflexivity|].
+        exists i. destruct HI as [[ks HI]|HI]; [left; exists ks|right]; right; apply in_or_app; right; exact HI.
+      * intros [= <- <- <-]. split; [reflexivity|]. cbn in HK. destruct HK as [evs0 [lb [lq [-> [i [ks HI]]]]]].
+        exists (pev :: evs0), lb, lq. split; [reflexivity|]. exists i. left. exists ks. right. exact HI.
+      * discriminate.
 Qed.
 
-(* the application being finished stops the run: nothing is popped any more *)
-Lemma process_keys_done fuel bs s : sdone s = true -> process_keys fuel bs s = (s, [], [], SDone).
-Proof. intros H. destruct fuel; cbn [process_keys]; destruct (queue s); rewrite ?H; reflexivity. Qed.
+(* the application being finished stops the run: only cursor position reports are still taken *)
+Lemma process_keys_done fuel bs s :
+  sdone s = true -> remove_first_cpr (queue s) = None -> process_keys fuel bs s = (s, [], [], SDone).
+Proof. intros H1 H2. destruct fuel; cbn [process_keys]; unfold next_item; rewrite H1, H2; reflexivity. Qed.
 
 (* the result does not depend on the fuel once the run finishes *)
 Lemma process_keys_fuel_mono fuel bs : forall s r fuel',
   process_keys fuel bs s = r -> snd r <> SFuel -> (fuel <= fuel')%nat -> process_keys fuel' bs s = r.
 Proof.
   induction fuel as [|fuel IH]; intros s r fuel' H NF LE.
-  - cbn [process_keys] in H. destruct fuel'; cbn [process_keys]; destruct (queue s); try exact H;
-      destruct (sdone s); try exact H; subst r; cbn in NF; congruence.
+  - cbn [process_keys] in H. destruct fuel'; cbn [process_keys]; destruct (next_item s) as [[[it q] pev]|]; try exact H;
+      subst r; cbn in NF; congruence.
   - destruct fuel' as [|fuel']; [lia|]. cbn [process_keys] in *.
-    destruct (queue s) as [|it q]; [exact H|]. destruct (sdone s); [exact H|].
-    destruct (send bs (buf s) (cenv s) q false it) as [b e q' d evs|e d evs|]; [|exact H|exact H].
-    destruct (process_keys fuel bs (mkst b q' e d)) as [[[s1 evs'] pop1] stt] eqn:EP.
-    assert (NF' : stt <> SFuel) by (subst r; exact NF).
-    rewrite (IH _ _ fuel' EP NF' ltac:(lia)). exact H.
+    destruct (next_item s) as [[[it q] pev]|]; [|exact H]. destruct (is_cpr it).
+    + destruct (cpr_step bs s q) as [[s1 evs] raised]. destruct raised; [exact H|].
+      destruct (process_keys fuel bs s1) as [[[s2 evs'] pop1] stt] eqn:EP.
+      assert (NF' : stt <> SFuel) by (subst r; exact NF).
+      rewrite (IH _ _ fuel' EP NF' ltac:(lia)). exact H.
+    + destruct (send bs (buf s) (cenv s) q (sdone s) it) as [b e q' d evs|e d evs|]; [|exact H|exact H].
+      destruct (process_keys fuel bs _) as [[[s1 evs'] pop1] stt] eqn:EP.
+      assert (NF' : stt <> SFuel) by (subst r; exact NF).
+      rewrite (IH _ _ fuel' EP NF' ltac:(lia)). exact H.
 Qed.
 
-(* without feeding handlers, one unit of fuel per queued item suffices *)
-Lemma loop_queue_le fuel bs : no_feed bs -> forall b flush e q d,
-  match loop fuel bs b flush e q d with
-  | LDone _ _ q' d' _ => d' = true \/ q' = q
+(* with handlers that only flip conditions or raise, one unit of fuel per queued item suffices *)
+Definition plain_act (a : action) : bool := match a with AFlip _ | ARaise => true | _ => false end.
+Definition plain (bs : list ib) : Prop := forall m, In m bs -> forallb plain_act (bacts (snd m)) = true.
+
+Lemma run_actions_plain acts : forall e q d, forallb plain_act acts = true ->
+  hq (run_actions acts e q d) = q /\ hdone (run_actions acts e q d) = d.
+Proof.
+  induction acts as [|a acts IH]; intros e q d H; [split; reflexivity|].
+  cbn in H. apply andb_prop in H. destruct H as [H1 H2].
+  destruct a; cbn [run_actions]; try discriminate; [apply IH; exact H2|split; reflexivity].
+Qed.
+
+Lemma loop_plain fuel bs : plain bs -> forall b flush e q,
+  match loop fuel bs b flush e q false with
+  | LDone _ _ q' d' _ => q' = q /\ d' = false
   | _ => True
   end.
 Proof.
-  intros NF. induction fuel as [|fuel IH]; intros b flush e q d; cbn [loop]; [exact I|].
-  destruct b as [|k b0]; [right; reflexivity|].
+  intros NF. induction fuel as [|fuel IH]; intros b flush e q; cbn [loop]; [exact I|].
+  destruct b as [|k b0]; [split; reflexivity|].
   set (b := k :: b0).
-  destruct (match filter (eager e) (get_matches bs e b) with [] => _ | _ :: _ => false end); [right; reflexivity|].
+  destruct (match filter (eager e) (get_matches bs e b) with [] => _ | _ :: _ => false end); [split; reflexivity|].
   destruct (last_opt _) as [m|] eqn:EL.
   - assert (Hm : In m bs).
     { apply last_opt_in in EL. destruct (filter (eager e) (get_matches bs e b)) eqn:EF.
       - exact (get_matches_in _ _ _ _ EL).
       - rewrite <- EF in EL. apply filter_In in EL. exact (get_matches_in _ _ _ _ (proj1 EL)). }
-    destruct (run_actions_no_feed _ e q d (NF m Hm)) as [HQ HE].
-    destruct (hraised _); [exact I|]. right. exact HQ.
+    destruct (run_actions_plain _ e q false (NF m Hm)) as [HQ HD].
+    destruct (hraised _); [exact I|]. split; assumption.
   - destruct (scan bs e b (length b)) as [[i m]|] eqn:ES.
-    + destruct (run_actions_no_feed _ e q d (NF m (scan_in _ _ _ _ _ _ ES))) as [HQ HE]. rewrite HQ.
-      destruct (hraised _); [exact I|]. destruct (hdone _); [cbn; left; reflexivity|].
-      specialize (IH (skipn i b) false (he (run_actions (bacts (snd m)) e q d)) q false).
+    + destruct (run_actions_plain _ e q false (NF m (scan_in _ _ _ _ _ _ ES))) as [HQ HD]. rewrite HQ, HD.
+      destruct (hraised _); [exact I|].
+      specialize (IH (skipn i b) false (he (run_actions (bacts (snd m)) e q false)) q).
       destruct (loop fuel bs (skipn i b) false _ q false); cbn; auto.
-    + destruct d; [cbn; left; reflexivity|].
-      specialize (IH (tl b) false e q false). destruct (loop fuel bs (tl b) false e q false); cbn; auto.
+    + specialize (IH (tl b) false e q). destruct (loop fuel bs (tl b) false e q false); cbn; auto.
 Qed.
 
-Lemma process_keys_fuel_nofeed fuel bs : no_feed bs -> forall s,
-  (length (queue s) <= fuel)%nat -> snd (process_keys fuel bs s) <> SFuel.
+Lemma process_keys_fuel_plain fuel bs : plain bs -> forall s,
+  sdone s = false -> (length (queue s) <= fuel)%nat -> snd (process_keys fuel bs s) <> SFuel.
 Proof.
-  intros NF. induction fuel as [|fuel IH]; intros s HL; cbn [process_keys].
+  intros NF. induction fuel as [|fuel IH]; intros s SD HL; cbn [process_keys]; unfold next_item; rewrite SD.
   - destruct (queue s); [discriminate|cbn in HL; lia].
-  - destruct (queue s) as [|it q] eqn:EQ; [discriminate|]. destruct (sdone s); [discriminate|].
-    pose proof (loop_queue_le (S (length (push (buf s) it))) bs NF (push (buf s) it) (is_flush it) (cenv s) q false) as HK.
-    pose proof (send_fuel bs (buf s) (cenv s) q false it) as HF.
-    unfold send in *. destruct (loop _ bs _ _ _ q false) as [b e q' d evs|e d evs|]; [|discriminate|congruence].
-    destruct HK as [->| ->].
-    + rewrite process_keys_done by reflexivity. discriminate.
-    + specialize (IH (mkst b q e d)). cbn [queue] in IH.
-      destruct (process_keys fuel bs (mkst b q e d)) as [[[s1 evs'] pop1] stt]. cbn in *. apply IH. lia.
+  - destruct (queue s) as [|it q] eqn:EQ; [discriminate|]. destruct (is_cpr it).
+    + unfold cpr_step. destruct (cpr_binding bs (cenv s)) as [m|] eqn:EB.
+      * destruct (run_actions_plain _ (cenv s) q (sdone s) (NF m (cpr_binding_in _ _ _ EB))) as [HQ HD].
+        rewrite HQ, HD, SD. destruct (hraised _); [discriminate|].
+        specialize (IH (mkst (buf s) q (he (run_actions (bacts (snd m)) (cenv s) q false)) false (sprev s)) eq_refl).
+        cbn [queue] in IH. destruct (process_keys fuel bs _) as [[[s1 evs'] pop1] stt]. cbn in *. apply IH. lia.
+      * rewrite SD. specialize (IH (mkst (buf s) q (cenv s) false (sprev s)) eq_refl).
+        cbn [queue] in IH. destruct (process_keys fuel bs _) as [[[s1 evs'] pop1] stt]. cbn in *. apply IH. lia.
+    + pose proof (loop_plain (S (length (push (buf s) it))) bs NF (push (buf s) it) (is_flush it) (cenv s) q) as HK.
+      pose proof (send_fuel bs (buf s) (cenv s) q false it) as HF.
+      unfold send in *. destruct (loop _ bs _ _ _ q false) as [b e q' d evs|e d evs|]; [|discriminate|congruence].
+      destruct HK as [-> ->].
+      specialize (IH (mkst b q e false (upd_prev (sprev s) evs)) eq_refl). cbn [queue] in IH.
+      destruct (process_keys fuel bs _) as [[[s1 evs'] pop1] stt]. cbn in *. apply IH. lia.
+Qed.
+
+(* ------------------------------------------------------------ cursor position reports *)
+Lemma find_rev_last {T} (P : T -> bool) (l : list T) : find P (rev l) = last_opt (filter P l).
+Proof.
+  induction l as [|a l IH] using rev_ind; [reflexivity|].
+  rewrite rev_app_distr. cbn [rev app find]. rewrite filter_app. cbn [filter].
+  destruct (P a); [rewrite last_opt_app; reflexivity|]. rewrite app_nil_r. exact IH.
+Qed.
+
+Definition cpr_only (m : ib) : bool := cpr_keys (bkeys (snd m)).
+
+(* which binding receives a report: never a wildcard binding; among the active
+   bindings whose keys are exactly (CPRResponse,), the last registered *)
+Lemma cpr_binding_best l e i b :
+  cpr_binding (index_from 0 l) e = Some (i, b) -> Best l e [CPR] cpr_only i b.
+Proof.
+  unfold cpr_binding. rewrite find_rev_last. intros H. apply pick_best.
+  unfold get_matches. rewrite filter_filter_aux. exact H.
+Qed.
+
+(* Delivering a report (the handler not raising) leaves the key buffer and the
+   previous-key bookkeeping alone, consumes no typed key, and changes the
+   input queue only by what the handler itself feeds. *)
+Lemma cpr_step_frame bs s q s1 evs :
+  cpr_step bs s q = (s1, evs, false) ->
+  buf s1 = buf s /\ sprev s1 = sprev s /\ evs_keys evs = [] /\ replays q evs (queue s1).
+Proof.
+  intros H. pose proof (cpr_step_conserved bs s q) as HC. pose proof (cpr_step_replays bs s q) as HR.
+  rewrite H in HC, HR. unfold cpr_step in H.
+  destruct (cpr_binding bs (cenv s)) as [m|].
+  - pose proof (run_actions_quiet (bacts (snd m)) (cenv s) q (sdone s)) as Q.
+    destruct (hraised _); [discriminate|]. injection H as <- <-. cbn [buf sprev].
+    split; [reflexivity|]. split; [reflexivity|]. split; [exact Q|exact HR].
+  - injection H as <- <-. cbn. split; [reflexivity|]. split; [reflexivity|]. split; [reflexivity|constructor].
 Qed.
